@@ -316,6 +316,7 @@ func mustJSON(v any) string {
 
 func checkC13(args []string) {
 	run := vx.NewRun("C13", "exploration", args)
+	activeRun = run
 	run.Rule = "code path in {AVX2 (native), SSE2 (AVX2 switched off by a verif hook), portable Go (go build -overlay that removes every architecture-specific file and un-constrains the !amd64 && !arm64 ones)} x (a) kernel calls through the exported dispatch entries on corner-value and seeded inputs and (b) pipeline cases: Encode+Decode over pictures (graded, noise, smooth, alpha, palette, 4200-pixel-wide alpha, 1x1, odd) x lossy quality/method grid, sharp YUV, dithering, simple filter, target size, lossless methods; Decode of generated foreign VP8/VP8L streams and of the libwebp files; every digest must be identical across the three builds; recorded inverse-DCT and inverse-WHT kernel calls of each build are trace-validated against the arithmetic of the format specification (spec/Vp8.tla via TVKernels). Plus `go build ./...` for the GOOS/GOARCH list. distinct = distinct (case, code path) pairs"
 	run.Assumptions = []string{"the portable build is obtained with -overlay on this amd64 machine (32-bit binaries cannot be executed here)", "that the three paths compute the RIGHT values is C04/C03 (independent reader); this check decides equality between paths"}
 	portable := os.Getenv("VCHECK_PORTABLE_BIN")
